@@ -119,6 +119,75 @@ def run_programs(files, shard=400):
             procs = []
     for p in procs: p.wait(timeout=1200)
 
+def line_engine(cid, P, tier, seed, replay, t0, obligations, discharged, assum_report, harness_ok, hout, evidence_path):
+    """correspondence for the standalone models (C10 auto-despawn, C17 syscall): one operation sequence per line,
+    model and implementation print one result line per sequence"""
+    eng = P['engine']
+    wdir = os.path.join(WORK, cid); shutil.rmtree(wdir, ignore_errors=True); os.makedirs(wdir)
+    f = os.path.join(wdir, 'cases.ops')
+    lines = []
+    if replay:
+        lines = [l for l in open(replay).read().split('\n') if l.strip() and not l.startswith('#')]
+    else:
+        cp = os.path.join(CORPUS, f'{eng}.ops')
+        if os.path.exists(cp): lines += [l for l in open(cp).read().split('\n') if l.strip() and not l.startswith('#')]
+        n = P['quick_n'] if tier == 'quick' else P['thorough_n']
+        import importlib
+        g = importlib.import_module('gen_' + eng)
+        import random as _r
+        rng = _r.Random(seed * 7919 + 13)
+        lines += [g.gen_line(rng) for _ in range(n)]
+    open(f, 'w').write('\n'.join(lines) + '\n')
+    violations = []
+    stats = {'programs': len(lines), 'disagreements': 0, 'ops': sum(len(l.split()) for l in lines)}
+    samples = []
+    if not harness_ok:
+        rp = os.path.join(REPLAYS, f'{cid}-harness-build.txt')
+        open(rp, 'w').write('correspondence broken: the harness no longer builds against /repo\n\n' + hout[-3000:])
+        violations.append(('no-input', rp, 'harness build failed'))
+    else:
+        subprocess.run([os.path.join(HARNESS, 'target', 'debug', 'harness'), eng, f], stdout=subprocess.DEVNULL, stderr=subprocess.DEVNULL, timeout=1200)
+        subprocess.run([os.path.join(MODEL, 'model_run'), '-' + eng, f], stdout=subprocess.DEVNULL, stderr=subprocess.DEVNULL, timeout=1200)
+        impl = read_log(f + '.impl.log'); model = read_log(f + '.model.log')
+        first = None
+        for i, l in enumerate(lines):
+            a = impl[i] if i < len(impl) else '<missing>'; b = model[i] if i < len(model) else '<missing>'
+            if a != b:
+                stats['disagreements'] += 1
+                if first is None: first = (i, l, a, b)
+            elif len(samples) < 3 and len(l.split()) > 8:
+                samples.append({'ops': l, 'result': a})
+        if first is not None:
+            i, l, a, b = first
+            rp = os.path.join(REPLAYS, f'{cid}-{seed}.ops')
+            open(rp, 'w').write(l + '\n')
+            # first differing step
+            sa, sb = a.split(' | '), b.split(' | ')
+            k = next((j for j, (x, y) in enumerate(zip(sa, sb)) if x != y), min(len(sa), len(sb)))
+            ops = l.split()
+            open(rp + '.why', 'w').write(f'correspondence {cid} broken on this operation sequence at step {k} (`{ops[k] if k < len(ops) else "?"}`):\n  implementation: {sa[k] if k < len(sa) else "<end>"}\n  model:          {sb[k] if k < len(sb) else "<end>"}\n'
+                                         'the observation (live entities / returned values after every operation) is fully determined by the theorems of ' + cid + ', so this sequence is a failing input\n')
+            violations.append(('input', rp, f'step {k}: impl `{sa[k] if k < len(sa) else "<end>"}` vs model `{sb[k] if k < len(sb) else "<end>"}`'))
+    wall = time.time() - t0
+    ev = {'property_id': cid, 'tier': tier, 'seed': seed, 'level': 'proof',
+          'coverage': {'obligations': len(obligations), 'discharged': discharged,
+                       'checker_cmd': 'make -C /verif/coq -j16 (coqc 8.16.1, full .vo) ; coqc Print Assumptions per theorem',
+                       'trusted_base': props.TRUSTED_BASE, 'theorems': obligations, 'assumptions': assum_report,
+                       'programs': stats['programs'], 'disagreements_checked': stats['programs'], 'disagreements': stats['disagreements'],
+                       'traces_validated_against_impl': stats['programs'] - stats['disagreements'],
+                       'evaluations': stats['programs'], 'distinct_nontrivial': len(set(lines)),
+                       'rule': f'corpus + seeded generator tools/gen_{eng}.py (operation sequences); distinct = textually distinct sequences',
+                       'distribution': {'total_ops': stats['ops']}, 'samples': samples or [{'note': 'none'}], 'exhaustive': False},
+          'assumptions': P['assumes'], 'wall_s': round(wall, 2), 'violations': len(violations)}
+    json.dump(ev, open(evidence_path, 'w'), indent=1)
+    if violations:
+        kind, rp, note = violations[0]
+        print(f'# {note}')
+        print(f'VIOLATION property={cid} replay={rp}' + (' no-failing-input-found' if kind == 'no-input' else ''))
+        sys.exit(1)
+    print(f'OK {cid}: {discharged}/{len(obligations)} theorems, {stats["programs"]} sequences, 0 disagreements, {wall:.1f}s')
+    sys.exit(0)
+
 def main():
     args = sys.argv[1:]
     cid = args[0]
@@ -181,6 +250,10 @@ def main():
     rc, hout = build_harness()
     harness_ok = rc == 0
     build_model()
+
+    # ---- 4. correspondence (engine-specific for the standalone models)
+    if P.get('engine') in ('c10', 'c17'):
+        return line_engine(cid, P, tier, seed, replay, t0, obligations, discharged, assum_report, harness_ok, hout, evidence_path)
 
     # ---- 4. programs
     wdir = os.path.join(WORK, cid)
